@@ -64,6 +64,14 @@ def cstep (st : CSt) (line : String) : CSt × String :=
     match amount.toInt? with
     | none => (st, "bad-op")
     | some a => (st, if commandValid (parseBool known) (parseBool rok) fee.toInt? a then "valid" else "invalid")
+  | ["m_cmd2", type, rhex, rok, feehex, amount] =>
+    let dec (h : String) : Option Bytes := if h == "-" then some [] else hex2bytes? h.toList
+    match dec rhex, dec feehex, amount.toInt? with
+    | some r, some f, some a =>
+      (st, match commandCheck type r (parseBool rok) f a with
+        | some r' => "valid " ++ hexOfBytes r'
+        | none => "invalid")
+    | _, _, _ => (st, "bad-op")
   | [] => (st, "")
   | _ => (st, "bad-op")
 
